@@ -61,7 +61,7 @@ impl Method for LinearVolatility {
 
 	fn new(length: Self::Params, &value: &Self::Input) -> Result<Self, Error> {
 		match length {
-			0 => Err(Error::WrongMethodParameters),
+			0 | PeriodType::MAX => Err(Error::WrongMethodParameters),
 			length => Ok(Self {
 				window: Window::new(length, 0.),
 				prev_value: value,
